@@ -11,7 +11,7 @@ UNITS = [
     T.RKstep(), T.Clip(), T.RK4avg(), T.EF(), T.RK2(), T.RK4(), G.Metric(),
     T.Update("EF"), T.Update("RK2"), T.Update("RK4"),
     A.GetVelocity1(), A.GetVelocity2(), A.GetVelocity4(),
-] + list(T.TRACKER_INIT_UNITS)
+] + list(T.TRACKER_INIT_UNITS) + [T.HISTORY_UNITS[1]]
 _s = z3.Real("s")
 LEMMAS = [
     L.ButcherOrder("EF", T.TABLEAUX["EF"]),
